@@ -51,7 +51,8 @@ COMPONENT_FAULTS = [
         ('second-piece-condition', '<piecewise><piece>' + CN + '<apply><gt/><ci>zz</ci>' + CN + '</apply></piece><piece>' + CN + '%s</piece></piecewise>'),
         ('otherwise', '<piecewise><piece>' + CN + '<apply><gt/><ci>zz</ci>' + CN + '</apply></piece><otherwise>%s</otherwise></piecewise>'),
         ('degree', '<apply><root/><degree>%s</degree><ci>zz</ci></apply>'),
-        ('logbase', '<apply><log/><logbase>%s</logbase><ci>zz</ci></apply>')]
+        ('logbase', '<apply><log/><logbase>%s</logbase><ci>zz</ci></apply>'),
+        ('degree-of-bvar', '<apply><diff/><bvar><ci>zz</ci><degree>%s</degree></bvar><ci>zz</ci></apply>')]
 ] + [
     ('math-cn-not-a-number', '<variable name="zz" units="second"/>' + MATH % ('<ci>zz</ci>', '<cn cellml:units="second">one</cn>'), ['MATH_CN_FORMAT', 'MATH_CN_BASE10']),
     ('reset-without-order', '<variable name="ra" units="second"/><variable name="rb" units="second"/><reset variable="ra" test_variable="rb">' + TV % CN + RV % CN + '</reset>', ['RESET_ORDER_VALUE', 'RESET_ATTRIBUTE_REQUIRED']),
